@@ -17,6 +17,15 @@ NOTES = {
     "C15-3t": "missed at first: the harness re-validated FlatWrap's bytes before inspecting the wrapper, which hid the inconsistent wrapper; it is now inspected as returned (false alarm list #9)",
     "C14-4e": "missed at first by C14 (caught by C15, whose clause it also breaks): the history engine only constructs values that fit; new 'construct' sub-workload emplaces into slices of every length and watches the bytes behind the last whole multiple of the alignment",
     "C17-4j": "missed at first: needs a definition that is declared portable but has a native last field, which does not compile on the unchanged tree unless it is generic; the zoo now has generic portable definitions instantiated with native arguments and probes `impl Portable` by autoref specialisation",
+    "C08-5": "would have been missed (messages were only ever sent as emplaced): strengthened on reading the change's description, before the first run - a third of the IO cases now use the guard's other paths (message replaced through DerefMut before send(), guard dropped unsent, raw bytes + assume_init)",
+    "C11-5": "would have been missed (initialisers never had more than L::MAX elements): strengthened before the first run - FromArray<256>/<257>, FromIterator and FromStr with more elements than a one-byte length type can count; C11 observes the refusal at the construction of its histories, C15/C03 in their own zone",
+    "C15-5": "same mechanism as C11-5; strengthened before the first run (zone `unrepresentable-content`)",
+    "C20-5": "would have been missed (emptiness was read through len()/iter() only): strengthened before the first run - accessor agreement clause (is_empty/is_full/remaining/iter().count() vs len()/capacity()) in every engine that walks a view",
+    "C03-6": "MISSED at first: release-only, and needs an item whose sealed offset is exactly L::MAX, which the value generator deliberately avoided (such a value must be refused). C03 and C15 now also construct unrepresentable contents (unsealable non-last item, more than L::MAX elements): whenever construction returns Ok the value must read back (C03), and an aligned buffer must answer InsufficientSize (C15)",
+    "C02-6": "caught by Miri in the first run; natively only since the surroundings monitor (same slice validated again with the bytes around it set to 0x00 / 0xFF) that was added on reading the description",
+    "C10-6": "same mechanism as C02-6",
+    "C08-6": "strengthened before the first run: 'trickle' cases (24+ messages, uninterrupted short ready writes, wake-driven executor) reach the 128 consecutive ready writes the change needs; lost wake-up detected without a clock",
+    "C16-7": "would have been missed (1 in 2^29 random integers): strengthened before the first run - conversion stimuli at, just below and just above the midpoints between neighbouring f32/f64 values for every exponent",
     "C10-2": "first run reported through a stale oracle parameter (buffer capacity of the case vs. of the oracle); fixed, then caught as the panic it is",
 }
 
